@@ -43,10 +43,10 @@ def absTol : Rat := mkRat Gen.absTolNum Gen.absTolDen
 
 def abs (x : Rat) : Rat := if x < 0 then -x else x
 
-/-- `|a-b| <= max (relTol * max |a| |b|) absTol`, the library's notion of "the same number" (`math.isclose`) -/
+/-- `|a-b| <= max (|relTol * a|, |relTol * b|, absTol)`, the library's notion of "the same number" (`math.isclose`) -/
 def isClose (a b : Rat) : Bool :=
   let d := abs (a - b)
-  decide (d ≤ relTol * abs a) || decide (d ≤ relTol * abs b) || decide (d ≤ absTol)
+  decide (d ≤ abs (relTol * a)) || decide (d ≤ abs (relTol * b)) || decide (d ≤ absTol)
 
 /-- does the reported value `got` (`none` = jump / default) agree with what MCNP reads at this position? -/
 def Val.matches : Val → Option Rat → Bool
